@@ -555,9 +555,21 @@ def check_release_predicate(model, R, P, B):
     R.rule(P + '.RELEASE', 'a buffer is released iff the node is not the root, not a leaf, not marked retain_grad and the global retain flag is off (truth table over 16 valuations)', floor=1)
     rel = release_stmts(B)
     v, s = B.sweep_var, B.selfname
+    # leafness is not an atom: Tensor.is_leaf is `not requires_grad or grad_fn is None` (checked below); the nodes of a sweep are constants (R=0, F=1), trainable leaves
+    # (R=1, F=1) and results of operations (R=1, F=0) - a tensor that does not require grad cannot carry a grad_fn (C07.GUARDS)
     mapping = {'%s is not %s' % (v, s): ('S', False), '%s is %s' % (v, s): ('S', True), '%s != %s' % (v, s): ('S', False),
                '%s.is_leaf' % v: ('L', True), '%s._retain_grad' % v: ('K', True), 'retain_grads__': ('G', True),
-               '%s.grad_fn is not None' % v: ('L', False), '%s.grad_fn is None' % v: ('L', True)}
+               '%s.requires_grad' % v: ('R', True), '%s._requires_grad' % v: ('R', True),
+               '%s.grad_fn is not None' % v: ('F', False), '%s.grad_fn is None' % v: ('F', True), '%s._grad_fn is None' % v: ('F', True), '%s._grad_fn is not None' % v: ('F', False)}
+    try:
+        lf = model.func(TENSOR + '.is_leaf')
+        lret = [n for n in body_walk(lf.node) if isinstance(n, ast.Return)]
+        lmap = {'self.requires_grad': ('R', True), 'self._requires_grad': ('R', True), 'self.grad_fn is None': ('F', True), 'self._grad_fn is None': ('F', True),
+                'self.grad_fn is not None': ('F', False), 'self._grad_fn is not None': ('F', False)}
+        leaf_ok = len(lret) == 1 and all(eval_bool(lret[0].value, atom_valuation(lmap, dict(R=Rv, F=Fv), fnode=lf.node)) == ((not Rv) or Fv) for Rv in (False, True) for Fv in (False, True))
+    except (Incomplete, AnalysisError):
+        leaf_ok = False
+    R.ob(P + '.RELEASE', TENSOR + '.is_leaf', 'is_leaf = not requires_grad or grad_fn is None', leaf_ok, 'the release predicate and the buffer discipline are stated in terms of this definition of a leaf', f.loc)
     stores = [r for r in rel if isinstance(r, ast.Assign)]
     if not stores:
         R.ob(P + '.RELEASE', f.qualname, 'release statement', False, 'intermediate gradients are never released (node._grad = None missing in the sweep)', _loc(f, B.sweep))
@@ -565,12 +577,13 @@ def check_release_predicate(model, R, P, B):
     for r in stores:
         bad = []
         try:
-            for S, L, K, G in itertools.product((False, True), repeat=4):
-                val = atom_valuation(mapping, dict(S=S, L=L, K=K, G=G))
+            for S, (Rq, Fn), K, G in itertools.product((False, True), ((False, True), (True, True), (True, False)), (False, True), (False, True)):
+                L = (not Rq) or Fn
+                val = atom_valuation(mapping, dict(S=S, L=L, K=K, G=G, R=Rq, F=Fn), fnode=f.node)
                 got = all(eval_bool(e, val) == p for e, p in _inside(B, r))
                 want = (not S) and (not L) and (not K) and (not G)
                 if got != want:
-                    bad.append(dict(root=S, leaf=L, retain_grad=K, retain_grads=G, released=got))
+                    bad.append(dict(root=S, requires_grad=Rq, has_grad_fn=not Fn, retain_grad=K, retain_grads=G, released=got))
         except Incomplete as e:
             R.incomplete_at(P + '.RELEASE', f.qualname, str(e))
             continue
